@@ -291,6 +291,7 @@ fn main() {
         "omap" => {
             let steps: usize = arg(&args, "--steps", "200").parse().unwrap();
             let mut o = omaprun::Out { cases: vec![], imp: vec![], oracle: vec![], stats: BTreeMap::new(), samples: vec![], nontrivial: 0, histories: 0 };
+            omaprun::start_watchdog(format!("{}/oracle.txt", out), arg(&args, "--watchdog-ms", "10000").parse().unwrap());
             let replay = arg(&args, "--replay", "");
             if !replay.is_empty() {
                 // --replay FILE: the operation lines of one history (ins/ior/rk/rv/reserve/value/values, hex numbers)
